@@ -25,14 +25,16 @@ META = {
                   'change - also when a report is overtaken by another report\'s election between its pair check and '
                   'its registration) and leader-in-ISR on the specification; the same behaviours run on the real controller code '
                   'and each real state is re-judged by TLC.',
-    'level_note': 'Controller side only, one partition; 4 fictitious replicas + 1 non-replica id; shrink/expand name '
+    'level_note': 'Controller plus the ISR-request side of one real replica: the real broker is replica r1 and sends the '
+                  'ISR requests of its own leadership terms through its real replicators; r2-r4 are fictitious, plus 1 '
+                  'non-replica id; one partition; shrink/expand name '
                   'replicas other than the leader named in the request (the only in-tree sender does). Requests are '
                   'atomic except that ReportLeader, ShrinkISR and ExpandISR are each split at the gate hook between their '
                   'pair check and their effect (witness registration + election / Raft proposal), with up to 2-3 requests '
                   'parked in between; other overlaps are not scheduled. The expiry timer is real (120 ms); the driver proves by the clock that no step other than '
                   'Expire can have seen a spontaneous expiry, else the behaviour is re-executed. Bounds: quick 8 steps '
-                  'exhaustive model (6 with overlapping reports) / 3 steps replayed transition cover / 10 steps '
-                  'simulated; thorough 12 / 4 / 14.',
+                  'exhaustive model (6 with overlapping reports) / 3 steps replayed transition cover + every sequence '
+                  'of 3 effective steps / 10 steps simulated; thorough 12 / 4 / 14.',
     'design_ref': 'DESIGN.md section 6/C07',
 }
 
@@ -265,11 +267,22 @@ def run(rep, tier, seed, replay):
     for root, p in paths:
         isr = core.tlaval.state_var(g['nodes'][root], 'isr')['__set__']
         cover.append((isr, [label_step(g['edges'][i][2]) for i in p]))
+    # 3b. EVERY sequence of effective steps (current pairs, no refusals) up to depth 3: the real system may
+    #     remember what the model state has forgotten (a status that should have been dropped, ...), which
+    #     transition coverage of the model's state graph cannot see
+    gp = graph.tlc_dump('MC_Failover.tla', 'MC_Failover_paths.cfg' if quick else 'MC_Failover_paths_thorough.cfg',
+                        timeout=1500)
+    ppaths, pcov, pedges = graph.cover(gp)
+    pathb = []
+    for root, p in ppaths:
+        isr = core.tlaval.state_var(gp['nodes'][root], 'isr')['__set__']
+        pathb.append((isr, [label_step(gp['edges'][i][2]) for i in p]))
+    rep.cov['step_sequences_replayed'] = len(pathb)
     rep.cov['cover_states'] = len(g['nodes'])
     rep.cov['cover_transitions'] = nedges
     rep.cov['cover_transitions_replayed'] = ncovered
     # 4. deeper random behaviours
-    num = 800 if quick else 12000
+    num = 500 if quick else 12000
     depth = 10 if quick else 14
     sims = core.tlc_simulate('MC_Failover.tla', 'Sim_Failover.cfg', num, depth, seed)
     simb = []
@@ -277,7 +290,7 @@ def run(rep, tier, seed, replay):
         if len(b) > 1:
             simb.append((core.tlaval.state_var(b[0]['body'], 'isr')['__set__'], [s['last'] for s in b[1:]]))
     behaviours = []
-    for isr, steps in directed + cover + simb + raceb:
+    for isr, steps in directed + cover + pathb + simb + raceb:
         behaviours.append(to_stimulus(isr, steps, len(behaviours) + 1))
     # 5. execute on the real controller, 6. TLC judges
     with core.scratch('c07') as d:
@@ -296,7 +309,8 @@ def run(rep, tier, seed, replay):
     rep.cov['exhaustive'] = ncovered == nedges
     rep.cov['rule'] = ('behaviours = (a) counterexamples of the defective variants (status kept after a failover, '
                        'all witness ids counted), (b) behaviours covering every transition of the bounded model '
-                       'MC_Failover_cover (%d states, %d transitions, %d replayed), (c) seeded TLC simulation of '
+                       'MC_Failover_cover (%d states, %d transitions, %d replayed) and every sequence of <= 3 effective '
+                       'steps (MC_Failover_paths, history in the view), (c) seeded TLC simulation of '
                        'Sim_Failover; non-trivial = >= 2 reports with the current pair and at least one expiry / ISR '
                        'change / controller loss / stale pair; distinct by hash of initial ISR + step list'
                        % (len(g['nodes']), nedges, ncovered))
